@@ -33,10 +33,13 @@ import (
 )
 
 const (
-	RepoDir       = "/repo"
 	SupportImport = "verif/harness/support"
 	TargetPkg     = "tfout"
 )
+
+// RepoDir is the tree the plugin is built from: /repo's working tree.  VERIF_REPO points the development aids
+// (soundness runs against scratch worktrees, tools/benigncheck.sh) somewhere else; such runs write no evidence.
+var RepoDir = "/repo"
 
 // HarnessDir is the harness module generated packages link against; set from the verification root.
 var HarnessDir = "/verif/harness"
